@@ -26,6 +26,9 @@ MINFOLDS = {
     "self.k_vec.iter().fold(self.k_vec[0], |min,x| if (x < min) {x} else {min})",
     "self.k_vec.iter().min().unwrap()",
     "self.k_vec.iter().copied().min().unwrap()",
+    # element 0 as the fold's seed and the remaining registers folded in: still every register (the seed must be [0])
+    "self.k_vec.iter().skip(1).fold(self.k_vec[0], |min,x| if (x < min) {{x}} else {{min}})",
+    "self.k_vec.iter().skip(1).fold(self.k_vec[0], |min,x| if (x < min) {x} else {min})",
 }
 
 
